@@ -120,7 +120,9 @@ def gen_histories(ctx, trees, maxlen, simulate=None, depth=None, recs="TRUE, FAL
         if isinstance(v, tuple) and len(v) == 2 and v[0] == "H":
             out.append([{"act": list(s["act"]), "ret": s["ret"], "pred": [list(p) for p in s["pred"]]} for s in v[1]])
     if not out:
-        raise Machinery("no histories generated")
+        raise Machinery("no histories generated: %s\n%s" % (r, r.out[-1500:]))
+    if not simulate and any(len(h) != maxlen for h in out):
+        raise Machinery("a generated history does not have length %d" % maxlen)
     return out
 
 
